@@ -46,7 +46,7 @@ Module C05_Abstract (V : OrderedTypeFull').
   Qed.
 
   (* Read over VERSIONS (a version v is the position `vcut v` just before it) the three statements keep one direction each:
-     equal results admit the same versions, an empty intersection has no common version, a universal union admits every
+     equal results contain the same versions, an empty intersection has no common version, a universal union contains every
      version.  The converses hold for positions; for versions they would need the version order to be dense, and the public
      PEP 440 order is not (C05_gap_refuted below). *)
   Theorem C05_versions a b : canon a -> canon b ->
